@@ -12,3 +12,38 @@ def _cols(case):
 def c01_empty_categorical(case, out):
     return (case["frame"]["n"] == 0 and out["sig"].startswith("diff|categories|")
             and any(c["kind"] == "category" for c in _cols(case)))
+
+
+def _coercible(t):
+    """Would the library's partition-value coercion turn this text into a non-text value?"""
+    import pandas as pd
+    if t in ("now", "NOW", "TODAY", "") or t.lower() in ("nan", "nat"):
+        return False
+    if t in ("True", "False"):
+        return True
+    for f in (lambda x: int(x, 10), float, pd.Timestamp, pd.Timedelta):
+        try:
+            f(t)
+            return True
+        except Exception:
+            continue
+    return False
+
+
+@predicate
+def c08_drill_mixed_text(case, out):
+    if case["opts"].get("file_scheme") != "drill":
+        return False
+    if not out["sig"].startswith("read_raised|ValueError@core.py:read_row_group|drill"):
+        return False
+    if "is not in list" not in out.get("detail", ""):
+        return False
+    cols = {c["name"]: c for c in case["frame"]["cols"]}
+    for p in case["partition_on"]:
+        c = cols[p]
+        if c["kind"] in ("text", "category"):
+            labels = [str(x) for x in (c["cats"] if c["kind"] == "category" else c["pool"])]
+            kinds = {_coercible(t) for t in labels}
+            if kinds == {True, False}:
+                return True
+    return False
